@@ -38,6 +38,7 @@ pub fn buffer_profile() -> Profile {
         perms: true,
         tag_on_modifiers: false,
         extra: 0,
+        tiny_patterns: true,
     }
 }
 
